@@ -32,6 +32,7 @@ import (
 	"sort"
 	"strconv"
 	"strings"
+	"sync"
 	"time"
 
 	"git.metabarcoding.org/obitools/obitools4/obitools4/pkg/obiapat"
@@ -561,24 +562,56 @@ func c11Replay(env *Env) {
 			case 2:
 				rng.Shuffle(len(order), func(a, b int) { order[a], order[b] = order[b], order[a] })
 			}
+			// the chunks of the round; in round 1 ONE worker made by PCRSliceWorker is shared by up to 8 goroutines
+			// working on different chunks at the same time (what MakeISliceWorker does with it in obipcr)
+			type sliceRun struct {
+				chunk []int
+				res   obiseq.BioSequenceSlice
+				fatal int
+				msg   string
+			}
+			var runs []*sliceRun
 			for at := 0; at < len(order); {
 				size := 2 + rng.Intn(30)
 				if at+size > len(order) {
 					size = len(order) - at
 				}
-				chunk := order[at : at+size]
+				runs = append(runs, &sliceRun{chunk: order[at : at+size]})
 				at += size
+			}
+			mkBatch := func(chunk []int) obiseq.BioSequenceSlice {
 				batch := make(obiseq.BioSequenceSlice, len(chunk))
 				for k, i := range chunk {
 					batch[k] = c11NewSeq(fmt.Sprintf("t%d", i), cases[i].T)
 				}
-				res, fatal, msg := c11Call(func() obiseq.BioSequenceSlice {
-					if round == 1 {
-						r, _ := obiapat.PCRSliceWorker(p.options()...)(batch)
-						return r
-					}
-					return obiapat.PCRSlice(batch, p.options()...)
-				})
+				return batch
+			}
+			if round == 1 {
+				shared := obiapat.PCRSliceWorker(p.options()...)
+				var wg sync.WaitGroup
+				gate := make(chan struct{}, 8)
+				for _, sr := range runs {
+					wg.Add(1)
+					gate <- struct{}{}
+					go func(sr *sliceRun) {
+						defer wg.Done()
+						defer func() { <-gate }()
+						batch := mkBatch(sr.chunk)
+						sr.res, sr.fatal, sr.msg = c11Call(func() obiseq.BioSequenceSlice {
+							r, _ := shared(batch)
+							return r
+						})
+					}(sr)
+				}
+				wg.Wait()
+			} else {
+				for _, sr := range runs {
+					batch := mkBatch(sr.chunk)
+					sr.res, sr.fatal, sr.msg = c11Call(func() obiseq.BioSequenceSlice { return obiapat.PCRSlice(batch, p.options()...) })
+				}
+			}
+			for _, sr := range runs {
+				chunk, res, fatal, msg := sr.chunk, sr.res, sr.fatal, sr.msg
 				if fatal != 0 {
 					fail("C11.slice.fatal", &cases[chunk[0]], fmt.Sprintf("PCRSlice on a batch of %d templates (%+v) did not return (%d: %s)", len(chunk), p, fatal, msg))
 					continue
